@@ -170,6 +170,22 @@ def gen_case(seed, tier='quick'):
         if rng.random() < 0.7:
             ops.append(restore(ops[0]['path']))
         ops.append({'op': 'build_code'})
+    digit_inputs = [a for a in inputs
+                    if world['cells'].get(a) in (1, 2, 3, 7)
+                    and not isinstance(world['cells'].get(a), bool)]
+    if compiled and digit_inputs and rng.random() < 0.12:
+        # the file is rewritten in place with a payload of the same size
+        # within the same (simulated) second, and read in between
+        p0 = persist()
+        p0.pop('fault', None)
+        a = rng.choice(digit_inputs)
+        ops += [p0, dict(restore(p0['path']), adopt=False, fault=None),
+                {'op': 'set', 'target': a, 'value': rng.choice([5, 8, 9])},
+                dict(p0), dict(restore(p0['path']), fault=None)]
+        for o in ops:
+            if o.get('fault') is None:
+                o.pop('fault', None)
+            o['still'] = True       # the clock does not move for these ops
     n = rng.choice([2, 3, 4, 6, 8, 12, 16])
     gens = 0
     while len(ops) < n:
@@ -266,7 +282,8 @@ def _run(case, fs, amb):
             break
         bump('ops')
         kind = op['op']
-        amb.clock.jump(0.3 if seq % 3 else 1.0)
+        if not op.get('still'):
+            amb.clock.jump(0.3 if seq % 3 else 1.0)
         if model is None and kind != 'restore':
             log.append([seq, kind, 'skipped: no live model after crash'])
             continue
